@@ -1,6 +1,7 @@
 package ed25519
 
 import (
+	stded "crypto/ed25519"
 	"crypto/sha512"
 
 	"github.com/cloudflare/pat-go/ed25519/internal/edwards25519"
@@ -103,4 +104,32 @@ func VerifC15_factor_input_injective() {
 	in2 := append(append(append([]byte{}, b2...), 0x00), c2...)
 	vAssert(vBytesEq(in1, in2) == (vBytesEq(b1, b2) && vBytesEq(c1, c2)), "input-determines-blind-and-context")
 	vReach("injective")
+}
+
+// C15 (signing side): a signature made with the blinded key verifies under the blinded public
+// key, with this package's verifier and with the unmodified standard library one. Over the
+// abstract kernels this is decided with the one algebraic fact that makes Ed25519 verify:
+// [k](-[x]B) + [k x + r]B = [r]B, together with [x y]B = [y]([x]B) for the blinded secret scalar.
+func VerifC15_blind_signature_verifies() {
+	vUnwind(140)
+	vUseModels("edabs")
+	priv := NewKeyFromSeed(vBytes("seed", 32, 32))
+	pk := []byte(priv[32:])
+	blind := vBytes("blind", 32, 32)
+	ctx := vBytesC("ctx", 0, vBound("C15_sig_ctx_len", 1, 4))
+	msg := vBytesC("msg", 0, vBound("C15_sig_msg_len", 1, 4))
+	bpk, err := BlindPublicKeyWithContext(pk, blind, ctx)
+	vAssert(err == nil, "blinds")
+	sig := BlindKeySignWithContext(priv, msg, blind, ctx)
+	vAssert(len(sig) == SignatureSize, "signature-size")
+	vAssert(Verify(bpk, msg, sig), "blinded-signature-verifies-under-blinded-key")
+	vAssert(stded.Verify(stded.PublicKey(bpk), msg, sig), "blinded-signature-verifies-with-standard-verifier")
+	if len(ctx) == 0 {
+		sig0 := BlindKeySign(priv, msg, blind)
+		bpk0, err := BlindPublicKey(pk, blind)
+		vAssert(err == nil, "blinds-without-context")
+		vAssert(vBytesEq(bpk0, bpk), "no-context-is-empty-context")
+		vAssert(stded.Verify(stded.PublicKey(bpk0), msg, sig0), "context-free-signature-verifies-with-standard-verifier")
+	}
+	vReach("verified")
 }
